@@ -325,6 +325,9 @@ def run(ck):
             else:
                 ck.violation("STABLE-PROPAGATE", q, "front", "%s must call parallel_mergesort_base<%s> with its parameters" % (q, st), fn.loc)
         check_equally_split(ck, tu)
+        from rules import c09
+        nt = c09.check_trees_in(ck, tu)
+        ck.require(nt >= 4, "the k >= 5 merge of the sorted runs uses loser trees; expected 4 instantiated classes, found %d" % nt)
     m = len(types)
     ck.floor("TEMP-DESTROY", 2 * m)
     ck.floor("BARRIER-PHASES", 2 * m)
